@@ -149,3 +149,55 @@ pub fn c17a_or_unrepresentable() {
 }
 
 include!("gen/c17_inst.rs");
+// ---- C17b: the list-level (cartesian) merge used for nested @media rules ----
+
+use grass_compiler::verif::media_merge_lists;
+
+fn sat_list(l: &[MediaQuery], env: Env) -> bool {
+    let mut i = 0;
+    while i < l.len() {
+        if sat(&l[i], env) { return true; }
+        i += 1;
+    }
+    false
+}
+
+/// outer list of two queries (shapes S1, S2 with one condition each), inner list of one or two queries
+pub fn check_lists<const S1: u8, const S2: u8, const S3: u8, const S4: u8>() {
+    let outer = [any_query::<S1, 1>(), any_query::<S2, 1>()];
+    let inner = [any_query::<S3, 1>(), any_query::<S4, 1>()];
+    let mut k = 0;
+    while k < 2 {
+        kani::assume(!(outer[k].modifier.is_some() && is_all(&outer[k])));
+        kani::assume(!(inner[k].modifier.is_some() && is_all(&inner[k])));
+        k += 1;
+    }
+    let env = Env { ty: kani::any(), feat: kani::any() };
+    kani::assume(env.ty <= 2);
+    let want = sat_list(&outer, env) && sat_list(&inner, env);
+    match media_merge_lists(&outer, &inner) {
+        Some(merged) => {
+            assert!(merged.len() <= 4, "C17b: merged list longer than the cartesian product");
+            assert!(sat_list(&merged, env) == want, "C17b: the merged query list is not the intersection of the two lists");
+            kani::cover!(merged.len() >= 2, "two_results");
+            kani::cover!(merged.is_empty(), "all_empty");
+            core::mem::forget(merged);
+        }
+        None => { kani::cover!(true, "unrepresentable"); }
+    }
+    kani::cover!(true, "end");
+    core::mem::forget(outer);
+    core::mem::forget(inner);
+}
+
+macro_rules! linst {
+    ($name:ident, $a:expr, $b:expr, $c:expr, $d:expr) => {
+        #[kani::proof]
+        #[kani::unwind(8)]
+        pub fn $name() { check_lists::<$a, $b, $c, $d>() }
+    };
+}
+// shapes: 0 = conditions only, 1 = type, 2 = `not` type, 3 = `only` type
+linst!(c17b_lists_tt_tt, 1, 1, 1, 1);
+linst!(c17b_lists_tc_tt, 1, 0, 1, 1);
+linst!(c17b_lists_tt_ot, 1, 1, 3, 1);
